@@ -358,7 +358,7 @@ package p9p
 //@ macro TABLE = (WF && INJ && LEDGER && DISTINCT)
 
 //@ func (*session).delRef
-//@ property C08 C13 C14
+//@ property C08 C11 C13 C14
 //@ requires TABLE
 //@ requires no_lock_held: lockcount() == 0 && (smhas(REFS, fid) ==> !held(R(fid)))
 //@ ensures unbound: !smhas(REFS, fid) && OTHERS_SAME(fid)
